@@ -27,7 +27,8 @@ ASSUMPTIONS = [
     'index files are produced by the real _save_index at every earlier moment of the same history (after each '
     'transaction; and before a pack once C07 templates are involved); bit damage inside an index is outside the property',
     'truncation of the index file = symbolic file length over the concrete saved bytes',
-    'history templates T1, T2, T4, T6',
+    'history templates T1-T6, T10, T2L (oids under two prefixes, last transaction low oids only), T3E (file ends in empty '
+    'transactions), TE (only empty transactions)',
 ]
 
 
@@ -107,27 +108,39 @@ def h_stale_index(m: int, cut: int, use_cut: bool, leftovers: bool, template: st
     reached()
 
 
-def h_stale_index_pack(m: int, cut: int, use_cut: bool, gc: bool) -> None:
-    """The index was saved at any moment BEFORE a pack (or after it); the data file is the packed one."""
+def h_stale_index_pack(m: int, cut: int, use_cut: bool, gc: bool, hist: str) -> None:
+    """The index was saved at any moment BEFORE a pack (or after it); the data file is the packed one.
+    hist G1: graph history.  hist EQ: transactions of equal length, so that after the pack and one more
+    commit the file is as long as before and its last transaction sits where the pre-pack one did."""
     with untraced():
         from zverif import graph as GR
         from ZODB.serialize import referencesf
         env = T.Env()
-        g = GR.G(env)
         snaps = []
-        orig_commit = g.commit
+        if hist == 'G1':
+            g = GR.G(env)
+            orig_commit = g.commit
 
-        def commit(note=None):
-            orig_commit(note)
-            g.s._save_index()
-            snaps.append(bytes(env.fs.content(INDEX)))
-        g.commit = commit
-        g.build('G1')
-        g.close()
-        s = g.s
-        pre = GR.model_from_storage(s)
-        s.pack(env.clock.now - 3.5, referencesf, gc=gc)
-        snaps.append(bytes(env.fs.content(INDEX)))          # the index the pack itself saved
+            def commit(note=None):
+                orig_commit(note)
+                g.s._save_index()
+                snaps.append(bytes(env.fs.content(INDEX)))
+            g.commit = commit
+            g.build('G1')
+            g.close()
+            s = g.s
+            s.pack(env.clock.now - 3.5, referencesf, gc=gc)
+            snaps.append(bytes(env.fs.content(INDEX)))          # the index the pack itself saved
+        else:
+            s = env.filestorage()
+            h = T.Hist(s)
+            X, Y = T.oid(1), T.oid(2)
+            for recs in ([(T.Z64, b'root-object')], [(X, b'x-version-1')], [(Y, b'y-version-1')], [(X, b'x-version-2')]):
+                h.commit(recs)
+                s._save_index()
+                snaps.append(bytes(env.fs.content(INDEX)))
+            s.pack(env.clock.time(), lambda p: [], gc=False)
+            h.commit([(X, b'x-version-3')])
         packed = GR.model_from_storage(s)
         s.close()
         data = bytes(env.fs.content(DATA))
@@ -289,6 +302,11 @@ def h_read_only_live(at: int, template: str) -> None:
     reached()
 
 
+def known_prepack_index(body):
+    """known_findings.jsonl classifier: the equal-length history EQ with a pre-pack index."""
+    return body.get('harness') == 'stale_index_pack' and (body.get('fixed') or {}).get('hist') == 'EQ'
+
+
 HARNESSES = [
     Harness('stale_index', h_stale_index,
             decides='opening with an index saved at any earlier moment, cut to any length, and with junk leftover side '
@@ -298,18 +316,18 @@ HARNESSES = [
             bounds='templates per shard', oracle='RevStore battery (= full scan of the data file, by C04)',
             code=['FileStorage.__init__', '_restore_index', '_sane/_check_sanity', 'read_index(start=...)', 'fsIndex.load',
                   '_save_index'],
-            quick=dict(timeout=170, shards=shards(template=['T1', 'T2', 'T4', 'T6'], use_cut=[True], leftovers=[False])
-                       + shards(template=['T2', 'T4'], use_cut=[False], leftovers=[True])),
-            thorough=dict(timeout=900, shards=shards(template=['T1', 'T2', 'T3', 'T4', 'T5', 'T6', 'T10'], use_cut=[True, False],
+            quick=dict(timeout=170, shards=shards(template=['T1', 'T2', 'T4', 'T6', 'T2L'], use_cut=[True], leftovers=[False])
+                       + shards(template=['T2', 'T4', 'T3E', 'TE'], use_cut=[False], leftovers=[True])),
+            thorough=dict(timeout=900, shards=shards(template=['T1', 'T2', 'T3', 'T4', 'T5', 'T6', 'T10', 'T2L', 'T3E', 'TE'], use_cut=[True, False],
                                                      leftovers=[True, False]))),
     Harness('stale_index_pack', h_stale_index_pack,
             decides='a packed data file opened with an index saved at any moment before the pack (or the pack\'s own), cut to any '
                     'length, yields exactly the state of the packed file',
             symbolic='m (selector over the 9 pre-pack save moments + the post-pack index), cut (symbolic index length)',
-            bounds='history G1, one pack (gc on/off)', oracle='model derived from the packed file',
+            bounds='history G1, one pack (gc on/off); history EQ (equal-length transactions: pack + one commit restore the file length)', oracle='model derived from the packed file',
             code=['FileStorage._restore_index', '_check_sanity', 'read_index(start=...)'],
-            quick=dict(timeout=150, shards=shards(use_cut=[False, True], gc=[True])),
-            thorough=dict(timeout=600, shards=shards(use_cut=[False, True], gc=[True, False]))),
+            quick=dict(timeout=150, shards=shards(use_cut=[False, True], gc=[True], hist=['G1']) + shards(use_cut=[False], gc=[False], hist=['EQ'])),
+            thorough=dict(timeout=600, shards=shards(use_cut=[False, True], gc=[True, False], hist=['G1']) + shards(use_cut=[False, True], gc=[False], hist=['EQ']))),
     Harness('read_only', h_read_only,
             decides='read-only open, reads and attempted writes modify no file (empty operation log, identical directory) and '
                     'every writer raises ReadOnlyError, also with an unfinished transaction of any torn length at the end',
